@@ -473,6 +473,41 @@ def r04b(ck, prog):
                         pa, pl = F.cfg.position(a), F.cfg.position(loops[1].child("cond"))
                         if F.cfg.dominates(pl, pa) and not a.within(loops[1]):
                             ok = True
+                if not ok:
+                    # the per-sequence clearing may live in a private helper: clear_gaps(msa->sequences[i]) inside the loop over all
+                    # numseq sequences, the helper zeroing gaps[0..len] of its parameter unconditionally
+                    for c in F.body.calls():
+                        H = prog.fn(prog.resolve(c.callee, F.file), required=False) if c.callee else None
+                        if H is None or H.body is None or not (H.static and H.file == F.file) or not c.args:
+                            continue
+                        hsub = _sd(H)
+                        for z in H.body.find("BinaryOperator"):
+                            if z.d["op"] != "=" or const_value(z.kids[1]) != 0 or z.kids[0].strip().k != "ArraySubscriptExpr":
+                                continue
+                            b_ = z.kids[0].strip().kids[0].strip(casts=True)
+                            if not (b_.k == "MemberExpr" and b_.d.get("field") == "gaps" and b_.kids and b_.kids[0].strip(casts=True).k == "DeclRefExpr"
+                                    and b_.kids[0].strip(casts=True).d.get("dk") == "Parm"):
+                                continue
+                            pname = b_.kids[0].strip(casts=True).d["name"]
+                            hl = [x for x in z.ancestors() if x.k in ("ForStmt", "WhileStmt")]
+                            ri = loop_range(hl[0], hsub) if len(hl) == 1 else None
+                            if ri is None:
+                                continue
+                            recognised = True
+                            idx = z.kids[0].strip().kids[1].strip(casts=True).text()
+                            inner_full = idx == ri[0] and ri[1].is_const() and ri[1].c == 0 and ri[2].c == 1 and list(ri[2].t.items()) == [(pname + "->len", 1)]
+                            plain = not [g_ for g_, p_ in guards(z) if g_.parent.k not in ("ForStmt", "WhileStmt")]
+                            pidx = H.param_index(pname)
+                            arg = expand_aliases(F, c.args[pidx]) if pidx is not None and pidx < len(c.args) else ""
+                            ol = [x for x in c.ancestors() if x.k in ("ForStmt", "WhileStmt")]
+                            ro = loop_range(ol[0], subst) if ol else None
+                            outer_full = ro is not None and ro[1].is_const() and ro[1].c == 0 and ro[2].c == 0 and \
+                                list(ro[2].t.items()) == [("msa->numseq", 1)] and ("sequences[%s]" % ro[0]) in arg
+                            unguarded = bool(ol) and not [g_ for g_, p_ in guards(c, stop=ol[0]) if g_.parent.k not in ("ForStmt", "WhileStmt")]
+                            if inner_full and plain and outer_full and unguarded:
+                                pa, pl = F.cfg.position(a), F.cfg.position(ol[0].child("cond"))
+                                if F.cfg.dominates(pl, pa) and not a.within(ol[0]):
+                                    ok = True
                 if not ok and not recognised:
                     raise AnalysisBroken("R04b: the loop nest of dealign_msa that zeroes the gap counts is not in a recognised counting form")
                 if not ok:
@@ -559,6 +594,12 @@ def r04b(ck, prog):
         if F is None or name == "dealign_msa":
             continue
         for m in member_accesses(F.body, "msa_seq", "gaps"):
+            # writing zero into a gap count reads nothing (a clearing helper of dealign_msa)
+            pm, cm = m.up(casts=True)
+            if pm is not None and pm.k == "ArraySubscriptExpr" and cm.within(pm.kids[0]):
+                qa, qc = pm.up(casts=True)
+                if qa is not None and qa.k == "BinaryOperator" and qa.d["op"] == "=" and (qc is qa.kids[0] or qc.within(qa.kids[0])) and const_value(qa.kids[1]) == 0:
+                    continue
             n += 1
             ck.violation("R04b", "R04b/%s/reads-gaps" % name, site(prog, m),
                          "%s (reachable from kalign_run before create_msa_tree) touches msa_seq.gaps: input gaps could "
